@@ -48,4 +48,11 @@ def model(data, info=None):
                            not fat) else 'no'
     out['iso'] = 'yes' if (n >= 34 * KI and data[32 * KI + 1:32 * KI + 6] in
                            (b'CD001', b'NSR02', b'NSR03')) else 'no'
+    # a signature that sits where the format keeps a trailing copy (VHD
+    # footer, VMDK footer header) or that was planted near the end: the
+    # statement ("signature is present in the content") does not pin the
+    # answer down
+    for name in (info or {}).get('tail_sigs') or ():
+        if out.get(name) == 'no':
+            out[name] = 'maybe'
     return out
